@@ -138,6 +138,31 @@ def sweep_programs():
     return out
 
 
+def mid_on_empty_after_full(prog):
+    """lc_ok8 of proofs/SccPoponStage8.v beyond dom_c05: a row filling its 32 cells is directly followed by a row in which
+    a mid-row code arrives while the row shows no character yet (first item, after other mid-row codes, or after a
+    backspace emptied the row): the reader appends the code's blank to the previous text, which trips the length check"""
+    def cells_and_flag(items):
+        acc, flag = [], False
+        for it in items:
+            if it[0] == 3:
+                if not any(c == "cell" for c in acc):
+                    flag = True
+                acc.append("opt")
+            elif it[0] == 5:
+                if acc:
+                    acc.pop()
+            else:
+                acc.append("cell")
+        return len(acc), flag
+    for load in prog[1]:
+        info = [cells_and_flag(r[4]) for r in load]
+        for (n, _), (_, flag) in zip(info, info[1:]):
+            if n >= 32 and flag:
+                return True
+    return False
+
+
 def build_stream(prog, words, clear, rng=None):
     lines = []
     frame = 30
@@ -210,6 +235,9 @@ def run(ctx):
             res["disagreements"].append({"stream": stream, "program": p, "difference": d})
         if not dom:
             dist["out_of_domain"] += 1
+            continue
+        if mid_on_empty_after_full(p):
+            dist["mid_on_empty_after_full_row_excluded"] = dist.get("mid_on_empty_after_full_row_excluded", 0) + 1
             continue
         if sum(len(l) for l in p[1]) >= 2 or kind == "sweep":
             res["nontrivial"].add(stream)
